@@ -190,10 +190,12 @@ known("KF-22", ["C14"], "legacy copy-on-write capture search reports the start o
       [{"props": ["C14"], "apis": ["PikeVM.SearchWithCaptures", "PikeVM.SearchWithCapturesAt", "PikeVM.SearchWithCapturesInSpan"], "kinds": ["CAPS"], "must": ["capture_in_repeat"]},
        {"props": ["C14"], "apis": ["PikeVM.SearchWithCaptures", "PikeVM.SearchWithCapturesAt"], "kinds": ["CAPS"], "must": ["can_match_empty"]}],
       [{"property": "C14", "pattern": "(a)*", "cache_capacity_bytes": 2097152, "max_cache_clears": 3, "determinization_limit": 1000, "class_representatives": [0, 1], "exhaustive_len": 3}])
-known("KF-23", ["C14"], "one-pass DFA: greedy priority for lazy quantifiers, assertions treated as always true, IsMatch stops at the first dead transition",
-      "dfa/onepass/search.go returns on a dead transition without remembering an earlier match state; builder.go follows look-around as plain epsilon",
-      [{"props": ["C14"], "groups": ["onepass"], "kinds_not": NOPANIC}],
-      [])
+fixed("FX-28", ["C03", "C14"], "2d09cec", "one-pass DFA ignored leftmost-first priority and treated assertions as always true",
+      "FindSubmatchIndex of ^(foo|\\d*|a) on \"a\" gave [0 1 0 1]; onepass.Search of ^(a+?) consumed the whole input; a\\bb matched \"ab\"",
+      [dc("C03", r"^(foo|\d*|a)", "a", source="branch-dispatch"), dc("C03", "^(foo|a|ba[a-a]*|bar|bar)", "bar", source="branch-dispatch"),
+       dc("C03", "^(a+?)", "aa"), dc("C03", r"^(a\bb)", "ab"),
+       {"property": "C14", "pattern": "(a+?)", "cache_capacity_bytes": 2097152, "max_cache_clears": 3, "determinization_limit": 1000, "class_representatives": [0, 1], "exhaustive_len": 3},
+       {"property": "C14", "pattern": r"(\d*|a)", "cache_capacity_bytes": 2097152, "max_cache_clears": 3, "determinization_limit": 1000, "class_representatives": [0, 1], "exhaustive_len": 3}])
 known("KF-24", ["C14"], "bounded backtracker in longest mode / on patterns that can match empty",
       "nfa/backtrack.go applies greedy-first semantics: ((b))?? in longest mode gives [0 0]; callers avoid it for empty-matching patterns",
       [{"props": ["C14"], "groups": ["backtrack"], "any_of": ["can_match_empty", "empty_alt"], "kinds_not": NOPANIC},
